@@ -224,7 +224,7 @@ func modelCasesHook(run *Run) func(s *Scenario, loc map[string]interface{}, coll
 		res := safeCall("ValidateFile", func() (interface{}, error) { return d.ValidateFile(context.Background(), s.File) })
 		if res.Panic == "" && res.Err == nil {
 			n++
-			run.Case("validate", []S{bodySchemaS(s.Main.Schema), bodyS(body)}, diagsCanonical(res.Val.(hcl.Diagnostics)))
+			run.Case("validate", []S{s.schemaS(), bodyS(body)}, diagsCanonical(res.Val.(hcl.Diagnostics)))
 		}
 		n += mergeCases(run, s, 4)
 	}
